@@ -11,6 +11,7 @@ CONSTANTS
   ReaderRestores = TRUE
   AllowDeleteFresh = TRUE
   ReaderCrash = FALSE
+  ROReaders = {}
 INVARIANTS TypeOK C23Holds CorruptNeverDecoded NothingBaked
 PROPERTIES UnverifiedNeverRewritten
 CHECK_DEADLOCK FALSE
